@@ -24,6 +24,9 @@ type prog struct {
 	// run executes the program; it returns the outcome string and an
 	// invariant error ("" = fine). wait blocks until n started routines ended.
 	run func() (string, string)
+	// noSubset: the outcome space is too large to be covered by sampling, so
+	// only the invariants are checked, not "real outcomes are sim outcomes".
+	noSubset bool
 }
 
 func join(xs []int) string {
@@ -73,11 +76,11 @@ func producersConsumer(cap, producers, items int) func() (string, string) {
 	}
 }
 
-var programs = []prog{
-	{"unbuffered-2x2", producersConsumer(0, 2, 2)},
-	{"buffered1-2x2", producersConsumer(1, 2, 2)},
-	{"buffered4-3x2", producersConsumer(4, 3, 2)},
-	{"select-two-ready", func() (string, string) {
+var programs = []prog{ // {name, run, noSubset}
+	{name: "unbuffered-2x2", run: producersConsumer(0, 2, 2), noSubset: false},
+	{name: "buffered1-2x2", run: producersConsumer(1, 2, 2), noSubset: false},
+	{name: "buffered4-3x2", run: producersConsumer(4, 3, 2), noSubset: true},
+	{name: "select-two-ready", run: func() (string, string) {
 		a, b := make(chan int, 1), make(chan int, 1)
 		a <- 1
 		b <- 2
@@ -87,7 +90,7 @@ var programs = []prog{
 		}
 		return fmt.Sprint(i), ""
 	}},
-	{"select-default", func() (string, string) {
+	{name: "select-default", run: func() (string, string) {
 		a := make(chan int)
 		i, _, _ := simrt.SelectStmt([]simrt.Case{{Chan: a}}, true, "conform")
 		if i != 1 {
@@ -95,7 +98,7 @@ var programs = []prog{
 		}
 		return "default", ""
 	}},
-	{"close-wakes-receivers", func() (string, string) {
+	{name: "close-wakes-receivers", run: func() (string, string) {
 		ch := make(chan int)
 		res := make(chan string, 2)
 		for k := 0; k < 2; k++ {
@@ -112,7 +115,7 @@ var programs = []prog{
 		}
 		return "ok", ""
 	}},
-	{"close-drains-buffer", func() (string, string) {
+	{name: "close-drains-buffer", run: func() (string, string) {
 		ch := make(chan int, 2)
 		simrt.Send(ch, 7, "conform")
 		simrt.Send(ch, 8, "conform")
@@ -126,7 +129,7 @@ var programs = []prog{
 		}
 		return out, ""
 	}},
-	{"timers-ordered", func() (string, string) {
+	{name: "timers-ordered", run: func() (string, string) {
 		t1, t2 := simrt.After(2*time.Millisecond), simrt.After(30*time.Millisecond)
 		start := simrt.Now()
 		i, _, _ := simrt.SelectStmt([]simrt.Case{{Chan: t2}, {Chan: t1}}, false, "conform")
@@ -138,7 +141,7 @@ var programs = []prog{
 		}
 		return "first", ""
 	}},
-	{"mutex-counter", func() (string, string) {
+	{name: "mutex-counter", run: func() (string, string) {
 		var mu sync.Mutex
 		n := 0
 		done := make(chan bool, 3)
@@ -162,7 +165,7 @@ var programs = []prog{
 		}
 		return "9", ""
 	}},
-	{"unbuffered-rendezvous", func() (string, string) {
+	{name: "unbuffered-rendezvous", run: func() (string, string) {
 		// a send on an unbuffered channel completes only with a receiver
 		ch := make(chan int)
 		flag := make(chan int, 4)
@@ -224,7 +227,7 @@ func Run(n int, seed uint64) (out []Result, ok bool) {
 		}
 		for o := range real {
 			r.RealOutcomes = append(r.RealOutcomes, o)
-			if !sim[o] {
+			if !sim[o] && !p.noSubset {
 				r.MissingInSim = append(r.MissingInSim, o)
 			}
 		}
